@@ -139,7 +139,12 @@ func C17(c *core.Ctx) {
 			}
 			b := make([]byte, rl)
 			c.Rand.Read(b)
-			ra, err := iso7816.ParseRApdu(bytes.Clone(b))
+			in := bytes.Clone(b)
+			ra, err := iso7816.ParseRApdu(in)
+			// the receive buffer is the transceiver's: it is re-used for the next response (the parsed response is a value)
+			for q := range in {
+				in[q] ^= 0x5A
+			}
 			l := map[string]any{"k": "r", "n": rl, "err": err != nil, "ndata": 0, "dataok": false, "swok": false, "reenc": false}
 			if err == nil && ra != nil {
 				l["ndata"] = len(ra.Data)
